@@ -280,6 +280,69 @@ def c_dask(rng):
 c_dask.n = {'quick': 40, 'thorough': 300}
 
 
+@check(('C20', 'C06'), 'dask.active-geometry-through-operations')
+def c_dask_active(rng):
+    """a Dask frame whose active geometry is the second geometry column: the frames returned by cx, row filters and
+    column subsets keep that column active (at the Dask level, in every partition, after compute), and spatial
+    operations chained on them use it"""
+    import dask
+    import spatialpandas as sp
+    kind = rng.choice([k for k in gen.KINDS if k != 'point'])
+    n = rng.choice([4, 6, 9])
+    cs = gen.case(kind, rng, derive=False, n=n, p_missing=0.1, p_empty=0.0)
+    far = [[1000.0 + i, 1000.0 + i] for i in range(n)]           # first geometry column: points far away from the shapes
+    df = sp.GeoDataFrame({'p0': gen.build('point', far), 'v': list(range(n)), 'shape': cs.arr})
+    npart = rng.choice([1, 2, 3])
+    how = rng.choice(['pandas-then-dask', 'dask-set_geometry'])
+    recipe = {'shape': cs.recipe, 'npartitions': npart, 'how': how}
+    out = []
+    with dask.config.set(scheduler='synchronous'):
+        try:
+            if how == 'pandas-then-dask':
+                ddf = _ddf(df.set_geometry('shape'), npart)
+            else:
+                ddf = _ddf(df, npart).set_geometry('shape')
+            bx = gen.box(rng)
+            lo_x, lo_y, hi_x, hi_y = oracle.norm_box(bx)
+            big = (-2000.0, -2000.0, 3000.0, 3000.0)
+            ops = {
+                'cx': lambda d: d.cx[lo_x:hi_x, lo_y:hi_y],
+                'cx-everything': lambda d: d.cx[big[0]:big[2], big[1]:big[3]],
+                'row-filter': lambda d: d[d['v'] >= 1],
+                'column-subset': lambda d: d[['shape', 'v']],
+            }
+            nm = rng.choice(sorted(ops))
+            r = ops[nm](ddf)
+            if not hasattr(r, 'geometry') or r.geometry.name != 'shape':
+                out.append(V(f'dask.active-geometry/{nm}/dask-level', f'{getattr(getattr(r, "geometry", None), "name", None)}', dict(recipe, box=bx)))
+            whole = r.compute()
+            if not isinstance(whole, sp.GeoDataFrame) or whole.geometry.name != 'shape':
+                out.append(V(f'dask.active-geometry/{nm}/computed', f'{type(whole).__name__}', dict(recipe, box=bx)))
+            for k in range(r.npartitions):
+                pf = r.partitions[k].compute()
+                if len(pf) and (not isinstance(pf, sp.GeoDataFrame) or pf.geometry.name != 'shape'):
+                    out.append(V(f'dask.active-geometry/{nm}/partition', f'partition {k}', dict(recipe, box=bx)))
+                    break
+            rows = [int(v) for v in whole['v']]
+            # a spatial operation chained on the result uses the active column
+            bx2 = gen.box(rng)
+            eff2 = oracle.norm_box(bx2)
+            exp = sorted(i for i in rows if oracle.intersects_bounds(kind, cs.view[i], eff2))
+            got = sorted(int(v) for v in r.cx[eff2[0]:eff2[2], eff2[1]:eff2[3]].compute()['v'])
+            if got != exp:
+                out.append(V(f'dask.active-geometry/{nm}/chained-cx', f'box {bx2}: got {got} expected {exp}', dict(recipe, box=bx, box2=bx2)))
+            tb = oracle.total_bounds(kind, [cs.view[i] for i in rows])
+            gtb = r.geometry.total_bounds
+            if not all(nan_eq(a, b) for a, b in zip(gtb, tb)):
+                out.append(V(f'dask.active-geometry/{nm}/total_bounds', f'{tuple(gtb)} vs {tb}', dict(recipe, box=bx)))
+        except Exception as e:
+            out.append(V(f'dask.active-geometry/raises-{type(e).__name__}', f'{e}', recipe))
+    return out
+
+
+c_dask_active.n = {'quick': 30, 'thorough': 200}
+
+
 @check(('C09', 'C17', 'C20'), 'dask.pack_partitions')
 def c_pack(rng):
     import dask
@@ -297,7 +360,7 @@ def c_pack(rng):
     akind, aview = (kind, cs.view) if active_second else ('point', other.view)
     npart_in = rng.choice([1, 2, 3])
     npart_out = rng.choice([1, 2, 3])
-    p = rng.choice([2, 5, 10])
+    p = rng.choice([1, 2, 5, 10, 16, 17, 20])
     recipe = {'shape': cs.recipe, 'points': other.recipe, 'active': act, 'npart_in': npart_in, 'npart_out': npart_out, 'p': p}
     tag = f'{"active-not-first" if active_second else "active-first"}/{region_of(aview)}'
     out = []
@@ -397,13 +460,43 @@ def c_parquet(rng):
                         out.append(V(f'parquet.pruned-compute-active-geometry/{"first" if act == "pts" else "not-first"}', '', dict(recipe, box=bx)))
                 except Exception as e:
                     out.append(V(f'parquet.pruned-compute-active-geometry/raises-{type(e).__name__}', f'{e}', dict(recipe, box=bx)))
-                pbk = rb[act].partition_bounds
                 prts = [rb.partitions[k].compute() for k in range(rb.npartitions)]
-                for k, pf in enumerate(prts):
-                    e = oracle.total_bounds(akind, [aview[i] for i in pf['v']])
-                    if not all(nan_eq(a, b) for a, b in zip(pbk.iloc[k].values, e)):
-                        out.append(V('parquet.pruned-partition_bounds', f'partition {k}: {list(pbk.iloc[k].values)} vs {e}', dict(recipe, box=bx)))
-                        break
+                # every geometry column of the pruned frame - not only the active one - describes the loaded rows
+                for col, ckind, cview in (('pts', 'point', other.view), ('shape', kind, cs.view)):
+                    tag = 'active' if col == act else 'other-column'
+                    pbk = rb[col].partition_bounds
+                    if len(pbk) != rb.npartitions:
+                        out.append(V(f'parquet.pruned-partition_bounds/{tag}/row-count', f'{len(pbk)} rows for {rb.npartitions} partitions', dict(recipe, box=bx)))
+                        continue
+                    bad = False
+                    for k, pf in enumerate(prts):
+                        e = oracle.total_bounds(ckind, [cview[i] for i in pf['v']])
+                        if not all(nan_eq(a, b) for a, b in zip(pbk.iloc[k].values, e)):
+                            out.append(V(f'parquet.pruned-partition_bounds/{tag}', f'partition {k}: {list(pbk.iloc[k].values)} vs {e}', dict(recipe, box=bx)))
+                            bad = True
+                            break
+                    if bad:
+                        continue
+                    loaded = [i for pf in prts for i in pf['v']]
+                    e = oracle.total_bounds(ckind, [cview[i] for i in loaded])
+                    tb = rb[col].total_bounds
+                    if not all(nan_eq(a, b) for a, b in zip(tb, e)):
+                        out.append(V(f'parquet.pruned-total_bounds/{tag}', f'{tuple(tb)} vs {e}', dict(recipe, box=bx)))
+                    bx2 = gen.box(rng)
+                    eff2 = oracle.norm_box(bx2)
+                    try:
+                        sel = rb[col].cx[bx2[0]:bx2[2], bx2[1]:bx2[3]].compute()
+                        gotrows = sorted(int(i) for i in sel.index)
+                        idx_to_row = {}
+                        for pf in prts:
+                            for lab, v in zip(pf.index, pf['v']):
+                                idx_to_row.setdefault(int(lab), []).append(int(v))
+                        exprows = sorted(int(lab) for pf in prts for lab, v in zip(pf.index, pf['v'])
+                                         if oracle.intersects_bounds(ckind, cview[int(v)], eff2))
+                        if gotrows != exprows:
+                            out.append(V(f'parquet.pruned-series-cx/{tag}', f'box {bx2}: got {gotrows} expected {exprows}', dict(recipe, box=bx, box2=bx2)))
+                    except Exception as ex:
+                        out.append(V(f'parquet.pruned-series-cx/{tag}/raises-{type(ex).__name__}', f'{ex}', dict(recipe, box=bx, box2=bx2)))
     except Exception as e:
         out.append(V(f'parquet/raises-{type(e).__name__}', f'{e}', recipe))
     finally:
